@@ -194,6 +194,9 @@ class State:
         self.cb_skip = False    # the running thread must perform its pending gated step before the next decision
         self.cb_switches = 0
         self.cb_pending = {}    # tid -> (after_tid, fn): threads started only once another one has finished
+        self.cb_subject = None  # freeze mode (C09): (tid, fn) of the thread that runs alone once all others are frozen
+        self.cb_frozen = None   # ... and the threads that were frozen (suspended for ever) when it started
+        self.cb_freeze_at = None
 
     def fork(self):
         s = State.__new__(State)
@@ -231,6 +234,9 @@ class State:
         s.cb_skip = self.cb_skip
         s.cb_switches = self.cb_switches
         s.cb_pending = dict(self.cb_pending)
+        s.cb_subject = self.cb_subject
+        s.cb_frozen = self.cb_frozen
+        s.cb_freeze_at = self.cb_freeze_at
         return s
 
     # ---- objects
@@ -1668,6 +1674,10 @@ class Engine:
                         del st.cb_pending[t]
             if st.stacks:
                 return self.cb_finish(st)
+            if st.stacks is not None and st.cb_subject is not None:
+                # every other thread ran to completion: the subject starts from a quiescent state
+                self.cb_freeze(st)
+                return None
             st.status = 'done'
             st.retval = rv
             return None
@@ -1788,10 +1798,22 @@ class Engine:
     def cb_decide(self, st):
         """The running thread is about to perform a gated atomic step: it goes on, or (budget permitting) it is
         preempted here in favour of any other unfinished thread. The choice is a symbolic scheduling variable."""
+        frz = []
+        if st.cb_subject is not None:
+            # freeze mode: every thread is suspended for ever right here and the subject runs alone
+            s3 = st.fork()
+            s3.frames[-1].idx -= 1
+            self.cb_freeze(s3)
+            frz = [s3]
         if st.cb_budget <= 0 or not st.stacks:
+            if frz:
+                st.cb_skip = True
+                st.frames[-1].idx -= 1
+                st.sched_fork = frz[0].sched_fork = True
+                return [st] + frz
             return None
         sw = fresh('sw', 8)
-        out = []
+        out = frz
         for t in sorted(st.stacks):
             s2 = st.fork()
             s2.pc.append(sw == t)
@@ -1802,7 +1824,26 @@ class Engine:
         st.pc.append(sw == 0)
         st.cb_skip = True
         st.frames[-1].idx -= 1
+        for s_ in [st] + out:
+            s_.sched_fork = True
         return [st] + out
+
+    def cb_freeze(self, st):
+        """Freeze mode (C09): all unfinished threads stop for ever; the subject thread starts and runs alone."""
+        tid, fn = st.cb_subject
+        st.cb_subject = None
+        frozen = sorted(st.stacks)
+        if st.frames:
+            frozen = sorted(frozen + [st.thread])
+        st.cb_frozen = frozen
+        st.stacks = {}
+        st.frames = [Frame(fn)]
+        st.thread = tid
+        st.cb_budget = 0
+        st.cb_skip = False
+        if frozen:
+            st.cb_switches += 1
+        st.cb_freeze_at = len(st.events)
 
     def cb_finish(self, st):
         """The running thread's body returned: any other unfinished thread continues (not a preemption)."""
@@ -1810,6 +1851,11 @@ class Engine:
         ts = sorted(st.stacks)
         sw = fresh('sw', 8) if len(ts) > 1 else None
         out = []
+        if st.cb_subject is not None:
+            s3 = st.fork()
+            s3.frames = []
+            self.cb_freeze(s3)
+            out.append(s3)
         for i, t in enumerate(ts):
             s2 = st if i == len(ts) - 1 else st.fork()
             if sw is not None:
@@ -1818,6 +1864,8 @@ class Engine:
             s2.thread = t
             s2.cb_skip = True
             out.append(s2)
+        for s_ in out:
+            s_.sched_fork = True
         return out if len(out) > 1 else None
 
     # ------------------------------------------------------------------ memory instructions
